@@ -272,7 +272,21 @@ pub fn generate(seed: u64, fault_free: bool) -> DictOut {
                         }
                         r
                     }
-                    0 => g.push("unique", call("unique", vec![var(&l)]), vec![]),
+                    0 => {
+                        // which spelling of several equal elements `unique` keeps is not part of
+                        // the map model: with such elements only the classes are observed
+                        let collide = match crate::model::Model::lookup(&g.model.top, &l) {
+                            Some(V::List(xs)) => xs.iter().enumerate().any(|(i, a)| {
+                                xs[..i].iter().any(|b| key_eq(a, b) && format!("{:?}", a) != format!("{:?}", b))
+                            }),
+                            _ => true,
+                        };
+                        if collide {
+                            g.push("unique-classes", call("set", vec![call("unique", vec![var(&l)])]), vec![])
+                        } else {
+                            g.push("unique", call("unique", vec![var(&l)]), vec![])
+                        }
+                    }
                     1 => g.push("count_distinct", call("count_distinct", vec![var(&l)]), vec![]),
                     2 => {
                         let name = g.fresh("d");
@@ -316,21 +330,43 @@ pub fn generate(seed: u64, fault_free: bool) -> DictOut {
                             vec![Ex::OpAssign(false, Box::new(lv("calls")), "+".into(), Box::new(int(1))), last],
                             false,
                         );
+                        let variadic = g.rng.chance(1, 3);
+                        let (name, params) = if variadic {
+                            ("mfv", vec![Lv::Splat(Box::new(lv("k")))])
+                        } else {
+                            ("mf", vec![lv("k")])
+                        };
                         let r = g.push(
                             "memo-declare",
-                            declare("mf", call("memoize", vec![Ex::Lambda(vec![lv("k")], Box::new(body))])),
+                            declare(name, call("memoize", vec![Ex::Lambda(params, Box::new(body))])),
                             vec![],
                         );
                         if r.is_ok() {
-                            memo = Some("mf".to_string());
+                            memo = Some(name.to_string());
                         }
                         r
                     }
                     Some(m) => {
                         nontrivial = true;
                         let m = m.clone();
-                        let k = key!();
-                        g.push("memo-call", call(&m, vec![k]), vec![])
+                        if m == "mfv" {
+                            // variadic: argument tuples are the keys -- f(a, b), f([a, b]), f() and
+                            // f([]) are four different entries
+                            let a = key!();
+                            let b = key!();
+                            let args = match g.rng.below(6) {
+                                0 => vec![],
+                                1 => vec![Ex::List(vec![])],
+                                2 => vec![a],
+                                3 => vec![a, b],
+                                4 => vec![Ex::List(vec![a, b])],
+                                _ => vec![Ex::List(vec![a])],
+                            };
+                            g.push("memo-call-variadic", call(&m, args), vec![])
+                        } else {
+                            let k = key!();
+                            g.push("memo-call", call(&m, vec![k]), vec![])
+                        }
                     }
                 }
             }
@@ -338,7 +374,24 @@ pub fn generate(seed: u64, fault_free: bool) -> DictOut {
                 // values are ints: order-insensitive digest of the contents
                 g.push("sum-values", call("sum", vec![call("values", vec![var(&d)])]), vec![])
             }
-            16 => g.push("len-keys", call("len", vec![call("keys", vec![var(&d)])]), vec![]),
+            16 => {
+                // key spellings flow out of `keys`/`items` only where the map model determines
+                // them (no two spellings of one key have met in this dictionary); otherwise only
+                // their number is observed, through `values`
+                let amb = match crate::model::Model::lookup(&g.model.top, &d) {
+                    Some(V::Dict(dd)) => dd.amb,
+                    _ => true,
+                };
+                if amb {
+                    g.push("len-values", call("len", vec![call("values", vec![var(&d)])]), vec![])
+                } else {
+                    match g.rng.below(3) {
+                        0 => g.push("len-keys", call("len", vec![call("keys", vec![var(&d)])]), vec![]),
+                        1 => g.push("keys-as-set", call("set", vec![call("keys", vec![var(&d)])]), vec![]),
+                        _ => g.push("items-as-dict", call("dict", vec![call("items", vec![var(&d)])]), vec![]),
+                    }
+                }
+            }
             _ => {
                 // alias then mutate: value semantics of dicts under every hasher
                 let name = g.fresh("d");
